@@ -108,13 +108,27 @@ type TextStyle struct {
 // If ignoreSpacing is true, 'word-spacing' and 'letter-spacing' are
 // not queried from [style]
 func NewTextStyle(style pr.StyleAccessor, ignoreSpacing bool) *TextStyle {
+	return newTextStyle(style, ignoreSpacing, false)
+}
+
+// newFontMeasureStyle returns the style used to measure the 'ex' and 'ch' units:
+// no length property is queried from [style] ('font-size', 'tab-size',
+// 'hyphenate-limit-zone', 'word-spacing', 'letter-spacing'), since computing one of
+// them may be what requires the measure (e.g. 'font-size: 2ex', 'tab-size: 4ch').
+func newFontMeasureStyle(style pr.StyleAccessor) *TextStyle {
+	return newTextStyle(style, true, true)
+}
+
+func newTextStyle(style pr.StyleAccessor, ignoreSpacing, ignoreLengths bool) *TextStyle {
 	var out TextStyle
 
 	out.FontDescription.Family = style.GetFontFamily()
 	out.FontDescription.Style = newFontStyle(style.GetFontStyle())
 	out.FontDescription.Weight = newFontWeight(style.GetFontWeight())
 	out.FontDescription.Stretch = newFontStretch(style.GetFontStretch())
-	out.FontDescription.Size = pr.Fl(style.GetFontSize().Value)
+	if !ignoreLengths {
+		out.FontDescription.Size = pr.Fl(style.GetFontSize().Value)
+	}
 	out.FontDescription.VariationSettings = newFontVariationSettings(style.GetFontVariationSettings())
 
 	out.FontLanguageOverride = newFontLanguageOverrride(style.GetFontLanguageOverride())
@@ -129,7 +143,9 @@ func NewTextStyle(style pr.StyleAccessor, ignoreSpacing bool) *TextStyle {
 	out.Hyphens = newHyphens(style.GetHyphens())
 	out.HyphenateLimitChars = style.GetHyphenateLimitChars()
 	out.HyphenateCharacter = string(style.GetHyphenateCharacter())
-	out.HyphenateLimitZone = newHyphenateZone(style.GetHyphenateLimitZone())
+	if !ignoreLengths {
+		out.HyphenateLimitZone = newHyphenateZone(style.GetHyphenateLimitZone())
+	}
 
 	if !ignoreSpacing {
 		out.WordSpacing = pr.Fl(style.GetWordSpacing().Value)
@@ -138,7 +154,9 @@ func NewTextStyle(style pr.StyleAccessor, ignoreSpacing bool) *TextStyle {
 		}
 	}
 
-	out.TabSize = newTabSize(style.GetTabSize())
+	if !ignoreLengths {
+		out.TabSize = newTabSize(style.GetTabSize())
+	}
 
 	out.FontFeatures = getFontFeatures(style)
 
